@@ -3,6 +3,7 @@ package main
 import (
 	"fmt"
 	"math"
+	"math/big"
 	"reflect"
 	"strings"
 
@@ -52,6 +53,42 @@ func genCtx(seed uint64, tier string) *Scenario {
 			// receivers that held long values before
 			sc.Vars[i] = mk(r.genWords(r.rangeI(dm, dm+dn), 4))
 			sc.Vars[i].Dirty = dm + dn + r.rangeI(1, 8)
+		}
+	}
+	// square-root focus: exact roots, exact ties (root with prec+1 digits ending
+	// in 5) and their neighbours, under every rounding mode
+	sqrtFocus := !focus && r.chance(0.06)
+	if sqrtFocus {
+		p := int(sc.Ctx.Prec)
+		if p == 0 {
+			p = 34
+		}
+		if p > 80 {
+			p = r.rangeI(1, 80)
+			sc.Ctx.Prec = uint(p)
+		}
+		for i := 0; i < 2 && i < nv; i++ {
+			nd := r.pick(p, p+1, p+1, p-1, p+2)
+			if nd < 1 {
+				nd = 1
+			}
+			var sb strings.Builder
+			sb.WriteByte(byte('1' + r.intn(9)))
+			for k := 1; k < nd; k++ {
+				sb.WriteByte(byte('0' + r.intn(10)))
+			}
+			hs := sb.String()
+			if nd == p+1 && r.chance(0.7) {
+				hs = hs[:nd-1] + "5"
+			}
+			h, _ := new(big.Int).SetString(hs, 10)
+			x := new(big.Int).Mul(h, h)
+			x.Add(x, big.NewInt(int64(r.pick(0, 0, 0, 1, -1))))
+			if x.Sign() <= 0 {
+				x.SetInt64(1)
+			}
+			w := bigToWords(x)
+			sc.Vars[i] = VarSpec{Form: 1, Words: w, Exp: int32(len(x.String()) + r.rangeI(-7, 7)), Prec: uint32(len(w) * wordDigits)}
 		}
 	}
 	n := r.rangeI(3, 25)
@@ -119,6 +156,13 @@ func genCtx(seed uint64, tier string) *Scenario {
 			op = Op{ID: i, Name: r.pickS("c.Quo", "c.Quo", "c.Quo", "c.Mul", "c.FMA"), Z: r.rangeI(2, nv-1), A: []int{0, 1}}
 			if op.Name == "c.FMA" {
 				op.A = []int{0, 1, 1}
+			}
+		}
+		if sqrtFocus && nv > 2 {
+			if i%2 == 0 {
+				op = Op{ID: i, Name: "c.SetMode", Z: -1, M: r.intn(6)}
+			} else {
+				op = Op{ID: i, Name: "c.Sqrt", Z: r.rangeI(2, nv-1), A: []int{r.intn(2)}}
 			}
 		}
 		ts.Ops = append(ts.Ops, op)
